@@ -409,7 +409,7 @@ Proof.
         pose proof (tinv_insert_new h l l [] (fst kv) (snd kv) T (eq_sym (app_nil_r l)) Hf) as P.
         unfold alloc_node in *. cbn zeta in P. cbn [fst snd] in *.
         assert (Et : tl h = last_of l) by apply (lk_tl _ _ (ti_linked _ _ T)).
-        cbn [tl]. rewrite Et. destruct P as (_ & Hne & T' & Kve & Kvo & Lv & _ & _ & Hil).
+        cbn [tl]. rewrite <- Et in P. destruct P as (_ & Hne & T' & Kve & Kvo & Lv & _ & _ & Hil).
         eexists. split; [exact T'|split; [exact Hil|split]].
         + intros c Hc. apply Lv. left. exact Hc.
         + intros Ew e0 He0. unfold keyf. apply in_app_or in He0. destruct He0 as [He0|[<-|[]]].
